@@ -246,7 +246,10 @@ func checkUploadIDRepo(id, repo string) error {
 	}
 	i := strings.LastIndex(rest, "/blobs/uploads/")
 	if i < 0 {
-		return nil
+		// Something else inside the registry's own name space, such as
+		// a manifest or a blob of some repository: certainly not an upload
+		// that belongs to this one.
+		return fmt.Errorf("upload ID %q is not an upload location", id)
 	}
 	if name := rest[:i]; name != repo {
 		return fmt.Errorf("upload ID is for repository %q, not %q", name, repo)
